@@ -169,6 +169,10 @@ fn enumerate<V: Full>(b: &BaseBlob, ks: &keys::KeySet, thorough: bool) -> (Vec<F
         p.extend_from_slice(&body);
         out.push(Fault { class: "extend", label: format!("+{x:02x} at front"), paserk: pk::join(&hdr, &p), opener: b.opener.clone() });
     }
+    // further dot-separated text after the PASERK string (a PASERK has no footer segment)
+    for t in [".", ".AAAA", "..", ". ", ".=", ".k4.local.AAAA"] {
+        out.push(Fault { class: "extend-text", label: format!("text {t:?} appended to the string"), paserk: format!("{}{t}", b.paserk), opener: b.opener.clone() });
+    }
     // one byte inserted / deleted at every offset (a parser that reads fields front to back, or re-encodes an integer
     // field canonically, does not notice a length change in the middle)
     for at in 0..=body.len() {
